@@ -460,20 +460,25 @@ def make_check(tier):
     cap = CAP_BITS[tier]
     all_ops = sorted(R.DW_OP)
     nested_q = {"lengths": [0, 1], "classes": REPRESENTATIVE_OPS, "classes2": REPRESENTATIVE_OPS}
-    nested_t = {"lengths": [0, 1, 2], "classes": all_ops, "classes2": REPRESENTATIVE_OPS}
+    nested_t = {"lengths": [0, 1, 2], "classes": all_ops, "classes2": ["OpDup", "OpLit", "OpConst2S", "OpConstU", "OpBReg"]}
     nested = nested_q if tier == "quick" else nested_t
     combos = [("little", 8), ("big", 4), ("little", 4), ("big", 8)]
     rt_combos = combos[:2] if tier == "quick" else combos
     for bo, ps in rt_combos:
+        def cap_for(kinds):
+            # one LEB128 operand: the full magnitude bound; two: a smaller one each (the tree is their product)
+            nleb = sum(1 for k in kinds if k in ("uleb", "sleb"))
+            return cap if nleb <= 1 else min(cap, 28)
+
         for name in sorted(R.DW_OP):
             chk.add("roundtrip/op/%s/%s%d" % (name, bo, ps), h_roundtrip,
-                    params=dict(base="op", name=name, bo=bo, ps=ps, cap=cap, nested=None))
+                    params=dict(base="op", name=name, bo=bo, ps=ps, cap=cap_for(R.DW_OP[name][1]), nested=None))
         for name in sorted(R.DW_CFA):
             has_block = "block" in R.DW_CFA[name][1]
             chk.add("roundtrip/inst/%s/%s%d" % (name, bo, ps), h_roundtrip,
-                    params=dict(base="inst", name=name, bo=bo, ps=ps, cap=(14 if has_block else cap), nested=nested),
-                    timeout=1500)
-    tail = 5 if tier == "quick" else 11
+                    params=dict(base="inst", name=name, bo=bo, ps=ps, cap=(10 if has_block else cap_for(R.DW_CFA[name][1])),
+                                nested=nested), timeout=3000)
+    tail = 5 if tier == "quick" else 8
     dec_combos = combos[:2] if tier == "quick" else combos
     for bo, ps in dec_combos:
         for base in ("op", "inst"):
@@ -501,7 +506,8 @@ def make_check(tier):
             chk.add("make_const/%s/%s%d" % ("OpConst" if via else "make_const_op", bo, ps), h_make_const,
                     params=dict(via_ctor=via, bo=bo, ps=ps))
     chk.bounds = {
-        "operand magnitude": "|v| <= 2^%d (LEB128 loops unroll by path forking; larger operands outside the claim)" % cap,
+        "operand magnitude": "|v| <= 2^%d for classes with one LEB128 operand, 2^%d each for two, 2^10 inside nested expressions "
+                             "(LEB128 loops unroll by path forking; larger operands outside the claim)" % (cap, min(cap, 28)),
         "nested expression length": nested["lengths"],
         "arbitrary-buffer decode": "first byte: all 256 (enumerated); %d following bytes symbolic in [0,255]; "
                                    "expression-carrying instructions: one nested operation, length and register 1 byte" % tail,
